@@ -106,6 +106,15 @@ func corpusBuild(structSet, elemDefault bool) *MProgram {
 			}
 		}
 	}
+	if !structSet {
+		// C18 only: containers inside containers (an inner container that is empty on both sides
+		// followed by elements that differ)
+		f.Structs = append(f.Structs, MStruct{Kind: "struct", Name: "Nest", Fields: []MField{
+			fld(1, "ll", "", tList(tList(tBase("i32")))),
+			fld(2, "lm", "", tList(tMap(tBase("i32"), tBase("string")))),
+			fld(3, "ml", "optional", tMap(tBase("i32"), tList(tBase("i64")))),
+		}})
+	}
 	if structSet {
 		// a second width of the required-field bitset of the fastgo reader (9 = one word + 1)
 		f.Structs = append(f.Structs, MStruct{Kind: "struct", Name: "Nine", Fields: manyRequired(9)})
